@@ -71,7 +71,16 @@ Definition C13_corr (i : input) (o : res obs) : bool :=
     | _, _ => false
     end.
 
-Definition C13_case (c : input * res obs) : N :=
-  let (i, o) := c in code (C13_corr i o) (C13_ok i o).
+(* one table: (history, what its recording callbacks logged) *)
+Definition C13_case1 := (input * res obs)%type.
 
-Definition C13_model (c : input * res obs) := let (h, k) := fst c in (run h k, spec_add h, spec_render h k).
+(* a case is a table and, when callbacks of that table render other tables from
+   inside a pass (a table in a cell), those tables too: every one of them is
+   judged against its own history *)
+Definition C13_case (c : C13_case1 * list C13_case1) : N :=
+  let (m, subs) := c in
+  code (forallb (fun c : C13_case1 => C13_corr (fst c) (snd c)) (m :: subs))
+       (forallb (fun c : C13_case1 => C13_ok (fst c) (snd c)) (m :: subs)).
+
+Definition C13_model1 (c : C13_case1) := let (h, k) := fst c in (run h k, spec_add h, spec_render h k).
+Definition C13_model (c : C13_case1 * list C13_case1) := map C13_model1 (fst c :: snd c).
